@@ -385,3 +385,86 @@ def prototype_validation(ctx, prog, rule):
     S4.step("push", calls_where(r, lambda c, t, R: c.endswith("Vec::<T, A>::push")))
     S4.before("name-validation", "push")
     S4.before("duplicate-test", "push")
+
+
+def _presence_tests(prog, f, R):
+    """switch blocks of f that branch on whether the prototype contains a record name: (block, name, successor when
+    present, successor when absent).  A presence test is a call with one RecordName constant argument whose callee
+    compares the elements' names with its parameter (contains / get / a local closure), tested as bool or Option."""
+    import names as nm
+    out = []
+    for bi in f.cfg():
+        t = f.blocks[bi]["term"]
+        if t["k"] != "switch" or op_place(t["discr"]) is None:
+            continue
+        d = strip(R.place(op_place(t["discr"])))
+        neg = False
+        while d[0] == "unop" and d[1] == "Not":
+            neg = not neg
+            d = strip(d[2])
+        kind = "bool"
+        if d[0] == "discr":
+            kind, d = "option", strip(d[1])
+        if d[0] != "call":
+            continue
+        consts = []
+        for a in d[2]:
+            a = strip(a)
+            parts = a[2] if a[0] == "agg" and a[1][0] == "tuple" else (a,)
+            for p_ in parts:
+                v = enum_const(p_)
+                if v is not None and (strip(p_)[0] == "const" or "RecordName" in str(strip(p_)[1])):
+                    consts.append(v)
+        if len(consts) != 1:
+            continue
+        looked = nm.lookup_names(prog, f, d)
+        if not looked:
+            continue
+        e = switch_edges(f, bi)
+        if kind == "bool":
+            present, absent = e.get("1", e["otherwise"]), e.get("0")
+            if "0" not in e:
+                continue
+            if neg:
+                present, absent = absent, present
+        else:
+            present, absent = e.get("1", e["otherwise"]), e.get("0", e["otherwise"])
+        out.append((bi, consts[0], present, absent))
+    return out
+
+
+def flag_value_pairs(ctx, prog, rule):
+    """`Is<X>Invalid` may only be used together with `<X>`, and that pair alone is acceptable: decided per pair on the
+    validator's flow graph pruned under presence assumptions (whatever spelling the lookups have)"""
+    f = prog.fn(PCW + "validate_prototype")
+    ctx.fn_seen(f)
+    R = Resolver(f, max_depth=24)
+    tests = _presence_tests(prog, f, R)
+    variants = [v["name"] for v in prog.adt("record::RecordName")["variants"]]
+    pairs = [(v, v[2:-7]) for v in variants if v.startswith("Is") and v.endswith("Invalid") and v[2:-7] in variants]
+    universe = {n for p in pairs for n in p}
+    rets, errs = set(f.return_blocks()), f.err_exit_blocks()
+
+    def ok_reachable(assume):
+        removed = set()
+        for bi, name, present, absent in tests:
+            if name in assume:
+                drop = absent if assume[name] else present
+                keep = present if assume[name] else absent
+                if drop is not None and drop != keep:
+                    removed.add((bi, drop))
+        g = cfg_without_edges(f, removed)
+        return find_path(g, [0], rets, errs) is not None
+    n = 0
+    for flag, value in pairs:
+        tested = {name for _, name, _, _ in tests}
+        if flag not in tested:
+            ctx.ob(rule, "flag-requires-value/%s" % flag, None if not tests else False, "no presence test of %s found in validate_prototype (%d presence tests recognised)" % (flag, len(tests)))
+            continue
+        n += 1
+        alone = ok_reachable({flag: True, value: False})
+        others = {x: False for x in universe - {flag, value}}
+        both = ok_reachable(dict(others, **{flag: True, value: True}))
+        ctx.ob(rule, "flag-requires-value/%s" % flag, (not alone) and both,
+               "%s without %s is %s; %s together with %s (and none of %s) is %s" % (flag, value, "ACCEPTED" if alone else "rejected", flag, value, sorted(others), "accepted" if both else "REJECTED"))
+    ctx.floor(rule, "invalid-flag / value pairs decided", n, 2)
